@@ -85,19 +85,69 @@ theorem mirror_deviates_from_spec :
     occupies in the file. -/
 theorem writer_ordinals_agree (cfg : WCfg) (ops : List WOp) :
     ∀ e ∈ wclose cfg (wrun cfg ops), e.used = e.slot.used :=
-  wclose_good (winv_run ops)
+  fun e he => (wclose_good (winv_run ops) e he).1
+
+/-- … and with the file identifier of the encryption state the writer holds when it closes the
+    file — the one `writeFileFooter` stores as `AadFileUnique` (writer.go:1439), i.e. the one every
+    reader of this file uses — whatever identifiers the column writers held in earlier files. -/
+theorem writer_file_identifier_agrees (cfg : WCfg) (ops : List WOp) :
+    ∀ e ∈ wclose cfg (wrun cfg ops), e.fu = some (wrun cfg ops).gen :=
+  fun e he => (wclose_good (winv_run ops) e he).2
+
+/-- the number of the encryption state is the number of `Reset`s: every file of a reused writer
+    has an identifier of its own (a fresh random one unless `FileIdentifier` is configured) -/
+theorem generation_counts_resets (cfg : WCfg) (ops : List WOp) :
+    (wrun cfg ops).gen = (ops.filter (· == .reset)).length := by
+  unfold wrun
+  suffices ∀ s, (ops.foldl (wstep cfg) s).gen = s.gen + (ops.filter (· == .reset)).length by
+    simpa [winit] using this winit
+  induction ops with
+  | nil => intro s; rfl
+  | cons o ops ih =>
+    intro s
+    rw [List.foldl_cons, ih]
+    cases o with
+    | reset => simp [wstep, wstepG, wreset]; omega
+    | flush l => simp [wstep, wstepG, wflush_gen]
+    | commit id a b => simp [wstep, wstepG, wcommit_gen]
+    | write => simp [wstep, wstepG]
+    | page c => simp [wstep, wstepG]
+    | cwrite i => simp [wstep, wstepG]
+    | cpage i c => simp [wstep, wstepG]
+
+/-- In bytes: the AAD of every sealed module of the closed file is the AAD of its slot under the
+    identifier of the closing generation. -/
+theorem writer_aad_is_slot_aad (cfg : WCfg) (ops : List WOp) (pfx : Bytes) (fuOf : Nat → Bytes) :
+    ∀ e ∈ wclose cfg (wrun cfg ops), e.aad pfx fuOf = e.slot.aad pfx (fuOf (wrun cfg ops).gen) := by
+  intro e he
+  simp only [WEv.aad, writer_file_identifier_agrees cfg ops e he, writer_ordinals_agree cfg ops e he]
+  rfl
+
+/-- The pages the writer reads back from its own page buffers to build bloom filters
+    (`flushFilterPages`) are opened with exactly the arguments — ordinals AND file identifier —
+    they were sealed with, in every history: the writer never fails on its own pages. -/
+theorem writer_rereads_own_pages (cfg : WCfg) (ops : List WOp) :
+    ∀ ab ∈ (wflush cfg (wrun cfg ops) []).reopened, ab.1 = ab.2 :=
+  (winv_flush (winv_run ops) []).re
+
+/-- non-vacuity: a re-read happens, of both pages of the second file of a reused writer -/
+example :
+    let cfg : WCfg := { ncols := 1, dict := fun _ => false, bloom := fun _ => true, plainFooter := false, reread := fun _ => true }
+    ((wflush cfg (wrun cfg [.page 0, .flush [], .reset, .page 0, .page 0]) []).reopened.map (·.2)) =
+      [⟨.dataPageHeader 0 0 0, ⟨.dataPageHeader, [0, 0, 0]⟩, some 1⟩, ⟨.dataPage 0 0 0, ⟨.dataPage, [0, 0, 0]⟩, some 1⟩,
+       ⟨.dataPageHeader 0 0 1, ⟨.dataPageHeader, [0, 0, 1]⟩, some 1⟩, ⟨.dataPage 0 0 1, ⟨.dataPage, [0, 0, 1]⟩, some 1⟩] := by decide
 
 /-- non-vacuity: a history with Reset and a Commit really seals pages, in row group 0 of the new file -/
 example :
     let cfg : WCfg := { ncols := 1, dict := fun _ => false, bloom := fun _ => false, plainFooter := false }
-    (⟨.dataPage 0 0 0, ⟨.dataPage, [0, 0, 0]⟩⟩ : Ev) ∈ wclose cfg (wrun cfg [.page 0, .flush [], .reset, .page 0]) ∧
-    (⟨.dataPage 1 0 1, ⟨.dataPage, [1, 0, 1]⟩⟩ : Ev) ∈ wclose cfg (wrun cfg [.page 0, .cwrite 7, .commit 7 [0] [0, 0]]) := by decide
+    (⟨.dataPage 0 0 0, ⟨.dataPage, [0, 0, 0]⟩, some 1⟩ : WEv) ∈ wclose cfg (wrun cfg [.page 0, .flush [], .reset, .page 0]) ∧
+    (⟨.dataPage 1 0 1, ⟨.dataPage, [1, 0, 1]⟩, some 0⟩ : WEv) ∈ wclose cfg (wrun cfg [.page 0, .cwrite 7, .commit 7 [0] [0, 0]]) := by decide
 
 /-- The writer model is not vacuous: this history really produces sealed pages in two row groups. -/
 example :
     let cfg : WCfg := { ncols := 2, dict := fun c => c == 0, bloom := fun c => c == 1, plainFooter := true }
-    (⟨.dataPage 1 0 0, ⟨.dataPage, [1, 0, 0]⟩⟩ : Ev) ∈ wclose cfg (wrun cfg [.page 0, .page 1, .flush [0], .flush [], .page 0, .page 1]) ∧
-    (⟨.dataPage 0 0 1, ⟨.dataPage, [0, 0, 1]⟩⟩ : Ev) ∈ wclose cfg (wrun cfg [.page 0, .page 1, .flush [0], .flush [], .page 0, .page 1]) ∧
+    (⟨.dataPage 1 0 0, ⟨.dataPage, [1, 0, 0]⟩, some 0⟩ : WEv) ∈ wclose cfg (wrun cfg [.page 0, .page 1, .flush [0], .flush [], .page 0, .page 1]) ∧
+    (⟨.dataPage 0 0 1, ⟨.dataPage, [0, 0, 1]⟩, some 0⟩ : WEv) ∈ wclose cfg (wrun cfg [.page 0, .page 1, .flush [0], .flush [], .page 0, .page 1]) ∧
     (wclose cfg (wrun cfg [.page 0, .page 1, .flush [0], .flush [], .page 0, .page 1])).length = 31 := by decide
 
 /-- non-vacuity of the interleaving: the writer's own rows, a row group of `BeginRowGroup` whose
@@ -112,12 +162,21 @@ example :
       [.dataPage 0 0 0, .dataPage 0 0 1, .dataPage 1 0 0, .dataPage 2 0 0, .dataPage 3 0 0, .dataPage 3 0 1,
        .dataPage 4 0 0, .dataPage 4 0 1, .dataPage 5 0 0] := by decide
 
+/-- a row group made by `BeginRowGroup` BEFORE a `Reset` and committed after it lands in the new
+    file with the new file's identifier (its column writers are handed ordinal and identifier by
+    `writeRowGroup`, whatever they held) -/
+example :
+    let cfg : WCfg := { ncols := 1, dict := fun _ => true, bloom := fun _ => false, plainFooter := false }
+    (wclose cfg (wrun cfg [.cwrite 5, .page 0, .flush [], .reset, .cwrite 5, .commit 5 [] [0]])).map (fun e => (e.slot, e.fu)) =
+      [(.dictPageHeader 0 0, some 1), (.dictPage 0 0, some 1), (.dataPageHeader 0 0 0, some 1), (.dataPage 0 0 0, some 1),
+       (.columnIndex 0 0, some 1), (.offsetIndex 0 0, some 1), (.footer, some 1)] := by decide
+
 /-- REGRESSION FACT on the mirror of the code BEFORE the writer's own row group was given the next
     ordinal after a Commit: `w.Write`; `rg.WriteRows`; `rg.Commit()` (row groups 0 and 1); a page
     of the writer itself spilling before Close was sealed as row group 1 and stored in row group 2. -/
 theorem commit_leaves_stale_main_ordinal_before_fix :
     let cfg : WCfg := { ncols := 1, dict := fun _ => false, bloom := fun _ => false, plainFooter := false }
-    (⟨.dataPage 2 0 0, ⟨.dataPage, [1, 0, 0]⟩⟩ : Ev) ∈
+    (⟨.dataPage 2 0 0, ⟨.dataPage, [1, 0, 0]⟩, some 0⟩ : WEv) ∈
       wclose cfg (wrunBeforeCommitFix cfg [.write, .cwrite 0, .commit 0 [0] [0], .page 0]) := by
   decide
 
@@ -125,10 +184,25 @@ theorem commit_leaves_stale_main_ordinal_before_fix :
     `Writer.Reset` the column writers kept the row-group ordinal of the previous file. A page
     flushed before `writeRowGroup` corrects the ordinal (every page of `Writer.Close`, every page of
     a full buffer) was sealed as row group 1 and landed in row group 0 of the new file: the file
-    could not be read back. -/
+    could not be read back. (And the second file kept the identifier of the first: generation 0.) -/
 theorem reset_breaks_ordinal_agreement_before_fix :
     let cfg : WCfg := { ncols := 1, dict := fun _ => false, bloom := fun _ => false, plainFooter := false }
-    (⟨.dataPage 0 0 0, ⟨.dataPage, [1, 0, 0]⟩⟩ : Ev) ∈ wclose cfg (wrunBefore cfg [.page 0, .flush [], .reset, .page 0]) := by
+    (⟨.dataPage 0 0 0, ⟨.dataPage, [1, 0, 0]⟩, some 0⟩ : WEv) ∈ wclose cfg (wrunBefore cfg [.page 0, .flush [], .reset, .page 0]) ∧
+    (wrunBefore cfg [.page 0, .flush [], .reset, .page 0]).gen = 0 := by
+  decide
+
+/-- Why `reset` must hand the new identifier to the column writers although `writeRowGroup` assigns
+    it too (writer.go:1235 vs 1559): on the variant WITHOUT that line (`wresetNoHandover`, not the
+    code), a page sealed between `Reset` and the next `writeRowGroup` — every page `Writer.Close`
+    flushes, every page of a full buffer — carries the identifier of the PREVIOUS file (generation
+    0) while the footer announces generation 1: the second file cannot be read, and with a bloom
+    filter that is built from the pages the writer fails on its own re-read. -/
+theorem reset_must_hand_over_identifier :
+    let cfg : WCfg := { ncols := 1, dict := fun _ => false, bloom := fun _ => true, plainFooter := false, reread := fun _ => true }
+    let s := wrunNoHandover cfg [.page 0, .flush [], .reset, .page 0]
+    (⟨.dataPage 0 0 0, ⟨.dataPage, [0, 0, 0]⟩, some 0⟩ : WEv) ∈ wclose cfg s ∧
+    (⟨.footer, ⟨.footer, []⟩, some 1⟩ : WEv) ∈ wclose cfg s ∧
+    ((⟨.dataPage 0 0 0, ⟨.dataPage, [0, 0, 0]⟩, some 0⟩, ⟨.dataPage 0 0 0, ⟨.dataPage, [0, 0, 0]⟩, some 1⟩) : WEv × WEv) ∈ (wflush cfg s []).reopened := by
   decide
 
 /-- Whatever sequence of page reads, cached-page servings, lazy dictionary reads and seeks (with
@@ -150,16 +224,38 @@ example :
     module in that slot with. -/
 theorem ordinals_agree (cfg : WCfg) (wops : List WOp)
     (c : Chunk) (rops : List ROp) (pfx fu : Bytes)
-    (ew : Ev) (hw : ew ∈ wclose cfg (wrun cfg wops)) (er : Ev) (hr : er ∈ (rrun c rops).log)
+    (ew : WEv) (hw : ew ∈ wclose cfg (wrun cfg wops)) (er : Ev) (hr : er ∈ (rrun c rops).log)
     (hslot : ew.slot = er.slot) :
     er.used.aad pfx fu = ew.used.aad pfx fu := by
   rw [writer_ordinals_agree cfg wops ew hw, reader_ordinals_agree c rops er hr, hslot]
+
+/-- The same in bytes, with the file identifier no longer a free parameter: `fuOf` gives the
+    identifier bytes of every encryption state the reused writer went through; the file carries
+    `fuOf (closing generation)` in its footer (writer.go:1439), the reader takes it from there
+    (file.go:147-167, 1162) — and that is what every module was sealed with. -/
+theorem aad_agree (cfg : WCfg) (wops : List WOp)
+    (c : Chunk) (rops : List ROp) (pfx : Bytes) (fuOf : Nat → Bytes)
+    (ew : WEv) (hw : ew ∈ wclose cfg (wrun cfg wops)) (er : Ev) (hr : er ∈ (rrun c rops).log)
+    (hslot : ew.slot = er.slot) :
+    er.used.aad pfx (fuOf (wrun cfg wops).gen) = ew.aad pfx fuOf := by
+  rw [writer_aad_is_slot_aad cfg wops pfx fuOf ew hw, reader_ordinals_agree c rops er hr, hslot]
+  rfl
+
+/-- non-vacuity of `aad_agree` / `roundtrip_reused_writer`: the second file of a reused writer has a
+    page in row group 0 that a reader of that chunk opens after a seek, and the identifier
+    generations really differ between the two files -/
+example :
+    let cfg : WCfg := { ncols := 1, dict := fun _ => false, bloom := fun _ => false, plainFooter := false }
+    let wops : List WOp := [.page 0, .flush [], .reset, .page 0, .page 0]
+    let c : Chunk := { rg := 0, col := 0, hasDict := false, npages := 2 }
+    (∃ ew ∈ wclose cfg (wrun cfg wops), ∃ er ∈ (rrun c [.seekIndexed 1, .step]).log, ew.slot = er.slot ∧ ew.fu = some 1) ∧
+    (wrun cfg wops).gen = 1 ∧ (wrun cfg [.page 0, .flush []]).gen = 0 := by decide
 
 /-- The modules read outside `FilePages` (footer, column metadata, column/offset index, bloom
     filter) are opened with `(rowGroup.Ordinal, column index)` taken from the footer — that is
     `Module.aad` itself (call sites listed at `Module.ords`); the writer side agrees. -/
 theorem static_ordinals_agree (cfg : WCfg) (wops : List WOp)
-    (pfx fu : Bytes) (ew : Ev) (hw : ew ∈ wclose cfg (wrun cfg wops)) :
+    (pfx fu : Bytes) (ew : WEv) (hw : ew ∈ wclose cfg (wrun cfg wops)) :
     ew.slot.aad pfx fu = ew.used.aad pfx fu := by
   rw [writer_ordinals_agree cfg wops ew hw]; rfl
 
@@ -168,7 +264,7 @@ theorem static_ordinals_agree (cfg : WCfg) (wops : List WOp)
     reader derives from the footer (`readBloomFilter`, `readColumnIndexFrom`, `readOffsetIndex`,
     `ReadPageIndex`: file.go:460, 501, 967, 1005, 1042, 1051). -/
 theorem bloom_and_index_ordinals_agree (cfg : WCfg) (wops : List WOp) (pfx fu : Bytes) (rg col : Nat)
-    (ew : Ev) (hw : ew ∈ wclose cfg (wrun cfg wops))
+    (ew : WEv) (hw : ew ∈ wclose cfg (wrun cfg wops))
     (hk : ew.slot = .bloomHeader rg col ∨ ew.slot = .bloomBits rg col ∨ ew.slot = .columnIndex rg col ∨ ew.slot = .offsetIndex rg col) :
     ew.used.ords = [rg, col] ∧ ew.used.aad pfx fu = ew.slot.aad pfx fu := by
   have h := writer_ordinals_agree cfg wops ew hw
@@ -179,15 +275,15 @@ theorem bloom_and_index_ordinals_agree (cfg : WCfg) (wops : List WOp) (pfx fu : 
     index and an offset index sealed for `(i, j)` for all `i < number of row groups`, `j < ncols`. -/
 theorem page_index_modules_present (cfg : WCfg) (wops : List WOp) (i j : Nat)
     (hi : i < (wflush cfg (wrun cfg wops) []).nrg) (hj : j < cfg.ncols) :
-    (⟨.columnIndex i j, ⟨.columnIndex, [i, j]⟩⟩ : Ev) ∈ wclose cfg (wrun cfg wops) ∧
-    (⟨.offsetIndex i j, ⟨.offsetIndex, [i, j]⟩⟩ : Ev) ∈ wclose cfg (wrun cfg wops) := by
-  simp only [wclose, List.mem_append, List.mem_flatMap, List.mem_map, List.mem_range, List.mem_singleton]
+    (⟨.columnIndex i j, ⟨.columnIndex, [i, j]⟩, some (wrun cfg wops).gen⟩ : WEv) ∈ wclose cfg (wrun cfg wops) ∧
+    (⟨.offsetIndex i j, ⟨.offsetIndex, [i, j]⟩, some (wrun cfg wops).gen⟩ : WEv) ∈ wclose cfg (wrun cfg wops) := by
+  simp only [wclose, wflush_gen, List.mem_append, List.mem_flatMap, List.mem_map, List.mem_range, List.mem_singleton]
   exact ⟨Or.inl (Or.inl (Or.inr ⟨i, hi, j, hj, rfl⟩)), Or.inl (Or.inr ⟨i, hi, j, hj, rfl⟩)⟩
 
 /-- non-vacuity: a bloom filter of row group 1 (after a Reset and an empty flush) -/
 example :
     let cfg : WCfg := { ncols := 2, dict := fun _ => false, bloom := fun c => c == 1, plainFooter := false }
-    (⟨.bloomBits 1 1, ⟨.bloomBits, [1, 1]⟩⟩ : Ev) ∈ wclose cfg (wrun cfg [.page 0, .flush [], .reset, .page 0, .flush [1], .flush [], .page 1]) := by decide
+    (⟨.bloomBits 1 1, ⟨.bloomBits, [1, 1]⟩, some 1⟩ : WEv) ∈ wclose cfg (wrun cfg [.page 0, .flush [], .reset, .page 0, .flush [1], .flush [], .page 1]) := by decide
 
 /-! ## With the ideal-AEAD hypothesis -/
 
@@ -199,15 +295,26 @@ variable {K N C : Type} (A : AEAD K N C)
     read/seek history). -/
 theorem roundtrip (hI : Ideal A) (cfg : WCfg) (wops : List WOp)
     (c : Chunk) (rops : List ROp) (pfx fu : Bytes)
-    (ew : Ev) (hw : ew ∈ wclose cfg (wrun cfg wops)) (er : Ev) (hr : er ∈ (rrun c rops).log)
+    (ew : WEv) (hw : ew ∈ wclose cfg (wrun cfg wops)) (er : Ev) (hr : er ∈ (rrun c rops).log)
     (hslot : ew.slot = er.slot) (k : K) (n : N) (p : Bytes) :
     openModule A k (er.used.aad pfx fu) (sealModule A k n (ew.used.aad pfx fu) p) = some p := by
   rw [ordinals_agree cfg wops c rops pfx fu ew hw er hr hslot]
   exact hI.open_seal k n _ p
 
+/-- … with the identifiers of a reused writer made explicit: the module as the writer really sealed
+    it (`ew.aad`: with whatever identifier its column writer held at that moment) opens for a
+    reader that takes the identifier from the footer of the file. -/
+theorem roundtrip_reused_writer (hI : Ideal A) (cfg : WCfg) (wops : List WOp)
+    (c : Chunk) (rops : List ROp) (pfx : Bytes) (fuOf : Nat → Bytes)
+    (ew : WEv) (hw : ew ∈ wclose cfg (wrun cfg wops)) (er : Ev) (hr : er ∈ (rrun c rops).log)
+    (hslot : ew.slot = er.slot) (k : K) (n : N) (p : Bytes) :
+    openModule A k (er.used.aad pfx (fuOf (wrun cfg wops).gen)) (sealModule A k n (ew.aad pfx fuOf) p) = some p := by
+  rw [aad_agree cfg wops c rops pfx fuOf ew hw er hr hslot]
+  exact hI.open_seal k n _ p
+
 /-- the same for the modules opened from footer metadata -/
 theorem roundtrip_static (hI : Ideal A) (cfg : WCfg) (wops : List WOp)
-    (pfx fu : Bytes) (ew : Ev) (hw : ew ∈ wclose cfg (wrun cfg wops)) (k : K) (n : N) (p : Bytes) :
+    (pfx fu : Bytes) (ew : WEv) (hw : ew ∈ wclose cfg (wrun cfg wops)) (k : K) (n : N) (p : Bytes) :
     openModule A k (ew.slot.aad pfx fu) (sealModule A k n (ew.used.aad pfx fu) p) = some p := by
   rw [static_ordinals_agree cfg wops pfx fu ew hw]
   exact hI.open_seal k n _ p
